@@ -313,10 +313,23 @@ def run(ctx):
 
     # ------------------------------------------------------------------ R4
     r4 = ctx.rule("C14.R4", "request -> reply type table agrees between server and client, and every handler stores the reply type")
-    cr = P.fn("client_receive")
-    sw = [b for b in cr.blocks.values() if b.term and b.term["k"] == "SwitchStmt" and "type" in cr.show(b.term["cond"])]
-    if len(sw) != 1:
-        raise Broken("C14.R4: request switch of client_receive not found")
+    # the switch over the request type: in client_receive or in a helper of the same file it hands the request to
+    cr0 = P.fn("client_receive")
+    cands, seen_, work_ = [], {cr0}, [cr0]
+    while work_:
+        g = work_.pop()
+        for b in g.blocks.values():
+            if b.term and b.term["k"] == "SwitchStmt" and "type" in g.show(b.term["cond"]) and \
+                    any(lab[0] == "case" and str(lab[2] or "").startswith("ctl_proto_type_") for _, lab in C.edges(g, b)):
+                cands.append((g, b))
+        for c in g.calls():
+            for d in P.callees(g, c)[0]:
+                if d.static and d.file == cr0.file and d not in seen_:
+                    seen_.add(d)
+                    work_.append(d)
+    if len(cands) != 1:
+        raise Broken("C14.R4: request switch of client_receive not found (%d candidates)" % len(cands))
+    cr, sw = cands[0][0], [cands[0][1]]
     enum = {c["name"]: c["value"] for c in P.enum("ctl_proto_type")["constants"]}
     reqs = [n for n in enum if n.endswith("_req")]
     handled = {}
